@@ -156,6 +156,7 @@ type Profile struct {
 	BadStatus   int   // per request: one status is outside 100..999
 	WFaultPm    int   // per request: writer fault plan
 	HookPanicPm int   // per request: a BeforeFunc that panics, fired by a write of the handler that registered it
+	RHPanicPm   int   // per request: a request-scoped ReturnHandler that panics while rendering a later handler's return value
 	CancelPm    int   // per request: planned cancel at a chain-relevant yield index
 	DeadlinePm  int   // per request: virtual deadline
 	FaultFree   int   // per run: all faults off
